@@ -490,4 +490,245 @@ example : holdsRedeem "aa" (some ⟨1, 0, 1000, .wpkh⟩) [⟨"51", 300, 10⟩, 
     ⟨[(1, 0)], [("0014aa", 420), ("51", 285), ("52", 285)]⟩ = true := by decide
 example : holdsSweep "aa" none [⟨⟨2, 1, 300, .wsh⟩, true⟩] 10 ⟨[(2, 1)], [("0014ab", 290)]⟩ = false := by decide
 
+/-! ### tie of the `Int` model to the `int64` code: no overflow below 2^62
+
+The Go code computes in `int64` (two's complement wrap-around, `wrap64`). The definitions below
+redo the arithmetic of the assemblers with every `+`/`-` wrapped, in the order the code performs
+it (left-to-right accumulation), and the theorems show that under the side conditions
+"amounts are non-negative, their total is below 2^62, |fee| < 2^62" (true for any Bitcoin amount:
+the supply is < 2^51 sat) no intermediate result wraps, i.e. the wrapped computation equals the
+`Int` model the other theorems are about. -/
+
+def wrap64 (x : Int) : Int :=
+  (x + 9223372036854775808) % 18446744073709551616 - 9223372036854775808
+
+def InI64 (x : Int) : Prop := -9223372036854775808 ≤ x ∧ x < 9223372036854775808
+
+theorem wrap64_of_in {x : Int} (h : InI64 x) : wrap64 x = x := by
+  unfold wrap64; unfold InI64 at h; omega
+
+/-- the result of a wrapped operation is always an `int64`. -/
+theorem wrap64_in (x : Int) : InI64 (wrap64 x) := by
+  unfold wrap64 InI64; omega
+
+/-- wrap-around does happen outside the range (the side conditions are needed). -/
+example : wrap64 (9223372036854775807 + 1) = -9223372036854775808 := by decide
+
+def add64 (a b : Int) : Int := wrap64 (a + b)
+def sub64 (a b : Int) : Int := wrap64 (a - b)
+
+/-- `for … { total += v }` in `int64`. -/
+def isum64 (xs : List Int) : Int := xs.foldl add64 0
+
+def absSum : List Int → Int
+  | [] => 0
+  | x :: xs => x.natAbs + absSum xs
+
+theorem absSum_nonneg (xs : List Int) : 0 ≤ absSum xs := by
+  induction xs with
+  | nil => simp [absSum]
+  | cons x xs ih => simp only [absSum]; omega
+
+theorem foldl_add64 (xs : List Int) (acc : Int)
+    (h : acc.natAbs + absSum xs < 9223372036854775808) : xs.foldl add64 acc = acc + isum xs := by
+  induction xs generalizing acc with
+  | nil => simp [isum]
+  | cons x xs ih =>
+    have hn := absSum_nonneg xs
+    simp only [absSum] at h
+    have hx : add64 acc x = acc + x := wrap64_of_in (by unfold InI64; omega)
+    simp only [List.foldl_cons, hx, isum]
+    rw [ih (acc + x) (by omega)]
+    omega
+
+theorem absSum_of_nonneg (xs : List Int) (h : ∀ x ∈ xs, 0 ≤ x) : absSum xs = isum xs := by
+  induction xs with
+  | nil => rfl
+  | cons x xs ih =>
+    have := h x (by simp)
+    simp only [absSum, isum, ih (fun y hy => h y (by simp [hy]))]
+    omega
+
+/-- `TotalInputsValue` (and every other accumulation of non-negative amounts) does not overflow
+    when the total is below 2^62. -/
+theorem sum64_exact (vals : List Int) (h0 : ∀ v ∈ vals, 0 ≤ v)
+    (h : isum vals < 4611686018427387904) : isum64 vals = isum vals := by
+  unfold isum64
+  rw [foldl_add64 vals 0 (by rw [absSum_of_nonneg vals h0]; simp; omega)]
+  omega
+
+/-- deposit sweep / moved funds sweep: `outputValue := builder.TotalInputsValue() - fee` in
+    `int64` is the `Int` value of the model. -/
+theorem sweep_int64_exact (vals : List Int) (fee : Int) (h0 : ∀ v ∈ vals, 0 ≤ v)
+    (h : isum vals < 4611686018427387904) (hf : fee.natAbs < 4611686018427387904) :
+    sub64 (isum64 vals) fee = isum vals - fee := by
+  rw [sum64_exact vals h0 h]
+  have hs : 0 ≤ isum vals := by rw [← absSum_of_nonneg vals h0]; exact absSum_nonneg vals
+  exact wrap64_of_in (by unfold InI64; omega)
+
+/-- the split `remainder := t % n; per := (t - remainder) / n; last := per + remainder` with
+    wrapped `-` and `+` (`withRedemptionTotalFee`, `assembleMovingFundsTransaction`). -/
+def split64 (t : Int) (n : Nat) : List Int :=
+  let r := t.tmod n
+  let per := (sub64 t r).tdiv n
+  match n with
+  | 0 => []
+  | k + 1 => List.replicate k per ++ [add64 per r]
+
+theorem split64_exact (t : Int) (n : Nat) (hn : 0 < n) (ht : t.natAbs < 4611686018427387904) :
+    split64 t n = splitEven (perOf t n) (remOf t n) n := by
+  obtain ⟨k, rfl⟩ : ∃ k, n = k + 1 := ⟨n - 1, by omega⟩
+  have hr : (t.tmod ((k + 1 : Nat) : Int)).natAbs ≤ t.natAbs := by
+    rw [Int.natAbs_tmod]; exact Nat.mod_le _ _
+  have hsub : sub64 t (t.tmod ((k + 1 : Nat) : Int)) = t - t.tmod ((k + 1 : Nat) : Int) :=
+    wrap64_of_in (by unfold InI64; omega)
+  have hper : (perOf t (k + 1)).natAbs ≤ t.natAbs := by
+    rw [perOf_eq t _ hn, Int.natAbs_tdiv]; exact Nat.div_le_self _ _
+  have hadd : add64 (perOf t (k + 1)) (remOf t (k + 1)) = perOf t (k + 1) + remOf t (k + 1) :=
+    wrap64_of_in (by unfold InI64 remOf; omega)
+  rw [splitEven_succ]
+  simp only [split64, hsub]
+  exact congrArg _ (congrArg (fun x => [x]) hadd)
+
+/-- fee shares computed in `int64` equal the model's, for every |fee| < 2^62. -/
+theorem feeShares_int64_exact (fee : Int) (n : Nat) (hn : 0 < n)
+    (hf : fee.natAbs < 4611686018427387904) : split64 fee n = feeShares fee n :=
+  split64_exact fee n hn hf
+
+/-- moving funds: `totalOutputValue := walletMainUtxo.Value - fee` and its split in `int64`. -/
+theorem move_int64_exact (value fee : Int) (n : Nat) (hn : 0 < n) (hv : 0 ≤ value)
+    (hv2 : value < 2305843009213693952) (hf : fee.natAbs < 2305843009213693952) :
+    split64 (sub64 value fee) n =
+      splitEven (perOf (value - fee) n) (remOf (value - fee) n) n := by
+  have : sub64 value fee = value - fee := wrap64_of_in (by unfold InI64; omega)
+  rw [this]
+  exact split64_exact _ n hn (by omega)
+
+/-- redemption outputs with wrapped arithmetic: `int64(uint64 a - uint64 t) - share`. -/
+def redemptionOuts64 : List Req → List Int → List (String × Int)
+  | r :: rs, s :: ss => (r.script, sub64 (wrap64 (r.amount - r.treasury)) s) :: redemptionOuts64 rs ss
+  | _, _ => []
+
+/-- `changeOutputValue := TotalInputsValue() - totalRedemptionOutputsValue - totalFee`, wrapped. -/
+def change64 (mainValue : Int) (outs : List (String × Int)) (shares : List Int) : Int :=
+  sub64 (sub64 mainValue (isum64 (outs.map (·.2)))) (isum64 shares)
+
+def ReqOk (r : Req) : Prop := 0 ≤ r.treasury ∧ r.treasury ≤ r.amount ∧ r.amount < 4611686018427387904
+
+theorem redemptionOuts64_exact (reqs : List Req) (ss : List Int) (hr : ∀ r ∈ reqs, ReqOk r)
+    (hs : ∀ s ∈ ss, s.natAbs < 4611686018427387904) :
+    redemptionOuts64 reqs ss = redemptionOuts reqs ss := by
+  induction reqs generalizing ss with
+  | nil => cases ss <;> rfl
+  | cons r rs ih =>
+    cases ss with
+    | nil => rfl
+    | cons x xs =>
+      obtain ⟨a, b, c⟩ := hr r (by simp)
+      have hx := hs x (by simp)
+      have h1 : wrap64 (r.amount - r.treasury) = r.amount - r.treasury :=
+        wrap64_of_in (by unfold InI64; omega)
+      have h2 : sub64 (r.amount - r.treasury) x = r.amount - r.treasury - x :=
+        wrap64_of_in (by unfold InI64; omega)
+      simp only [redemptionOuts64, redemptionOuts, h1, h2,
+        ih xs (fun q hq => hr q (by simp [hq])) (fun q hq => hs q (by simp [hq]))]
+
+theorem natAbs_isum_le (xs : List Int) : ((isum xs).natAbs : Int) ≤ absSum xs := by
+  induction xs with
+  | nil => simp [isum, absSum]
+  | cons x xs ih => simp only [isum, absSum]; omega
+
+theorem absSum_mem_le (xs : List Int) : ∀ x ∈ xs, (x.natAbs : Int) ≤ absSum xs := by
+  induction xs with
+  | nil => intro x hx; cases hx
+  | cons y ys ih =>
+    intro x hx
+    have hn := absSum_nonneg ys
+    simp only [List.mem_cons] at hx
+    simp only [absSum]
+    rcases hx with rfl | hx
+    · omega
+    · have := ih x hx; omega
+
+theorem absSum_outs_le (reqs : List Req) (ss : List Int) (hr : ∀ r ∈ reqs, ReqOk r)
+    (hl : reqs.length = ss.length) :
+    absSum ((redemptionOuts reqs ss).map (·.2)) ≤ redeemableTotal reqs + absSum ss := by
+  induction reqs generalizing ss with
+  | nil =>
+    cases ss with
+    | nil => simp [redemptionOuts, absSum, redeemableTotal, isum]
+    | cons _ _ => simp at hl
+  | cons r rs ih =>
+    cases ss with
+    | nil => simp at hl
+    | cons x xs =>
+      obtain ⟨a, b, c⟩ := hr r (by simp)
+      have := ih xs (fun q hq => hr q (by simp [hq])) (by simpa using hl)
+      simp only [redemptionOuts, List.map_cons, absSum, redeemableTotal, isum] at this ⊢
+      omega
+
+/-- redemption in `int64`: with well-formed requests (0 ≤ treasury ≤ amount < 2^62), a main UTXO
+    below 2^61 and `Σ redeemable + Σ|share| < 2^61`, neither the outputs nor the change
+    computation wraps: they are the `Int` values of the model. -/
+theorem redeem_int64_exact (reqs : List Req) (ss : List Int) (mv : Int)
+    (hr : ∀ r ∈ reqs, ReqOk r) (hl : reqs.length = ss.length)
+    (hm : 0 ≤ mv ∧ mv < 2305843009213693952)
+    (hb : redeemableTotal reqs + absSum ss < 2305843009213693952) :
+    redemptionOuts64 reqs ss = redemptionOuts reqs ss ∧
+    change64 mv (redemptionOuts reqs ss) ss = mv - totalOut (redemptionOuts reqs ss) - isum ss := by
+  have hrt : 0 ≤ redeemableTotal reqs := by
+    unfold redeemableTotal
+    have : ∀ x ∈ reqs.map (fun r => r.amount - r.treasury), 0 ≤ x := by
+      intro x hx
+      simp only [List.mem_map] at hx
+      obtain ⟨r, hr', rfl⟩ := hx
+      have := hr r hr'; unfold ReqOk at this; omega
+    rw [← absSum_of_nonneg _ this]; exact absSum_nonneg _
+  have hss := absSum_nonneg ss
+  constructor
+  · apply redemptionOuts64_exact reqs ss hr
+    intro x hx
+    have := absSum_mem_le ss x hx
+    omega
+  · have ho := absSum_outs_le reqs ss hr hl
+    have h1 : isum64 ((redemptionOuts reqs ss).map (·.2)) = isum ((redemptionOuts reqs ss).map (·.2)) := by
+      unfold isum64; rw [foldl_add64 _ 0 (by simp; omega)]; omega
+    have h2 : isum64 ss = isum ss := by
+      unfold isum64; rw [foldl_add64 _ 0 (by simp; omega)]; omega
+    have n1 := natAbs_isum_le ((redemptionOuts reqs ss).map (·.2))
+    have n2 := natAbs_isum_le ss
+    unfold change64 totalOut
+    rw [h1, h2]
+    have h3 : sub64 mv (isum ((redemptionOuts reqs ss).map (·.2))) = mv - isum ((redemptionOuts reqs ss).map (·.2)) :=
+      wrap64_of_in (by unfold InI64; omega)
+    rw [h3]
+    exact wrap64_of_in (by unfold InI64; omega)
+
+/-- the fee shares of `withRedemptionTotalFee` have `Σ|share| ≤ 3·|fee|`, so the bound of
+    `redeem_int64_exact` follows from bounds on the amounts and the proposed fee alone. -/
+theorem absSum_feeShares_le (fee : Int) (n : Nat) (hn : 0 < n) :
+    absSum (feeShares fee n) ≤ 3 * (fee.natAbs : Int) := by
+  obtain ⟨k, rfl⟩ : ∃ k, n = k + 1 := ⟨n - 1, by omega⟩
+  rw [feeShares_shape fee _ hn]
+  have hq : (fee.tdiv ((k + 1 : Nat) : Int)).natAbs = fee.natAbs / (k + 1) := by
+    rw [Int.natAbs_tdiv, Int.natAbs_natCast]; rfl
+  have hr : (fee.tmod ((k + 1 : Nat) : Int)).natAbs ≤ fee.natAbs := by
+    rw [Int.natAbs_tmod]; exact Nat.mod_le _ _
+  have hk : k * (fee.natAbs / (k + 1)) ≤ fee.natAbs :=
+    Nat.le_trans (Nat.mul_le_mul_right _ (Nat.le_succ k)) (Nat.mul_div_le _ _)
+  have hd : fee.natAbs / (k + 1) ≤ fee.natAbs := Nat.div_le_self _ _
+  have hrep : ∀ (m : Nat) (x : Int) (tl : List Int),
+      absSum (List.replicate m x ++ tl) = m * (x.natAbs : Int) + absSum tl := by
+    intro m x tl
+    induction m with
+    | zero => simp
+    | succ m ih =>
+      simp only [List.replicate_succ, List.cons_append, absSum, ih]
+      rw [Int.natCast_succ, Int.add_mul]; omega
+  rw [hrep]
+  simp only [Nat.add_sub_cancel, absSum, hq]
+  have hk' : (k : Int) * ((fee.natAbs / (k + 1) : Nat) : Int) ≤ fee.natAbs := by exact_mod_cast hk
+  have hd' : ((fee.natAbs / (k + 1) : Nat) : Int) ≤ fee.natAbs := by exact_mod_cast hd
+  omega
+
 end KeepVerif.C26
